@@ -118,8 +118,9 @@ def check_C(S, p):
         base = E.cli_create(data, smap, samples_via="arg")
         S.count("C_base")
         tag = "C %s" % "/".join(map(str, labels))
-        wit = {"labels": labels, "level": "C", "map": E.map_json(smap), "argv": base.argv, "input_b64": E.b64(data), "run": base.brief()}
+        from .. import replay as R
         want = expected_text(exp)
+        wit = {"labels": labels, "level": "C", "map": E.map_json(smap), "argv": base.argv, "input_b64": E.b64(data), "run": base.brief(), "replay": R.exact(base, want)}
         if base.rc != 0 or base.out != want:
             S.viol("C09:reference", "[%s] list %r: rc %s stdout %r, reference (axes in first-appearance order %r) %r" % (
                 tag, E.map_json(smap), base.rc, base.out[:150], populations(smap), want[:150]), wit)
@@ -130,14 +131,14 @@ def check_C(S, p):
         S.count("C_twin_runs")
         if t1.rc != 0 or t1.out != base.out:
             S.viol("C09:column-order", "[%s] reordering the input's sample columns changed the output: %r vs %r" % (tag, t1.out[:150], base.out[:150]),
-                   dict(wit, twin_columns=cs2.samples))
+                   dict(wit, twin_columns=cs2.samples, replay=R.same(base, t1)))
         # twin 2: order-preserving list permutation
         sm2 = order_preserving_perm(rng, smap)
         t2 = E.cli_create(data, sm2)
         S.count("C_twin_runs")
         if t2.rc != 0 or t2.out != base.out:
             S.viol("C09:list-order", "[%s] list permutation keeping label order %r -> %r changed the output: %r vs %r" % (
-                tag, E.map_json(smap), E.map_json(sm2), t2.out[:150], base.out[:150]), dict(wit, twin_map=E.map_json(sm2)))
+                tag, E.map_json(smap), E.map_json(sm2), t2.out[:150], base.out[:150]), dict(wit, twin_map=E.map_json(sm2), replay=R.same(base, t2)))
         # twin 3: label permutation => transposed axes
         sm3, perm = label_perm(rng, smap)
         t3 = E.cli_create(data, sm3)
@@ -146,13 +147,13 @@ def check_C(S, p):
         want3 = ("#SHAPE=<%s>\n%s\n" % ("/".join(map(str, ts)), " ".join(map(str, td)))).encode()
         if t3.rc != 0 or t3.out != want3:
             S.viol("C09:label-permutation", "[%s] labels reordered by %r: stdout %r, expected the transposed spectrum %r" % (tag, perm, t3.out[:150], want3[:150]),
-                   dict(wit, twin_map=E.map_json(sm3), perm=perm))
+                   dict(wit, twin_map=E.map_json(sm3), perm=perm, replay=R.exact(t3, want3)))
         # twin 4: --samples vs --samples-file
         t4 = E.cli_create(data, smap, samples_via="file")
         S.count("C_twin_runs")
         if t4.rc != base.rc or t4.out != base.out:
             S.viol("C09:samples-file", "[%s] --samples-file differs from --samples for %r: rc %s %r %r vs %r" % (
-                tag, E.map_json(smap), t4.rc, t4.out[:150], t4.err[:150], base.out[:150]), wit)
+                tag, E.map_json(smap), t4.rc, t4.out[:150], t4.err[:150], base.out[:150]), dict(wit, replay=R.same(base, t4)))
         # twin 5: unlisted columns replaced by junk (missing, multiallelic, haploid, triploid): only listed samples count
         from .c01 import junk_twin
         cs5 = junk_twin(rng, cs, {s for s, _ in smap})
@@ -162,7 +163,7 @@ def check_C(S, p):
             S.count("C_unlisted_junk_twins")
             if t5.rc != 0 or t5.out != base.out:
                 S.viol("C09:unlisted-influence", "[%s] junk genotypes in UNLISTED samples changed the run: rc %s stdout %r stderr %r" % (tag, t5.rc, t5.out[:150], t5.err[:200]),
-                       dict(wit, twin_vcf=cs5.to_vcf().decode()[:20000]))
+                       dict(wit, twin_vcf=cs5.to_vcf().decode()[:20000], replay=R.same(base, t5)))
         sizes = G.pop_sizes([(s, q) for s, q in dict(smap).items()])
         S.case(key=digest([E.codes(cs), E.map_json(smap)]), nontrivial=len(exp.shape) >= 2 and (len(set(exp.shape)) > 1 or td != [int(x) for x in exp.cells]))
         if i == 0 and p["i"] == 0:
@@ -180,7 +181,7 @@ def check_C(S, p):
         S.case(key="err|%s|%s" % (name, p["name"]), nontrivial=False)
         if r.rc == 0 or r.out or not r.err.strip() or r.panicked:
             S.viol("C09:invalid-list-accepted:" + name, "[C %s] list %r (%s): rc %s stdout %r stderr %r" % (p["name"], sm, via, r.rc, r.out[:100], r.err[:200]),
-                   {"level": "C", "argv": r.argv, "input_b64": E.b64(data), "run": r.brief()})
+                   {"level": "C", "argv": r.argv, "input_b64": E.b64(data), "run": r.brief(), "replay": __import__("vf.replay", fromlist=["x"]).reject(r)})
 
 
 def check_L1(S, p):
